@@ -23,12 +23,12 @@ BORROWS = {
     'C03': [('C01', None), ('C02', None)],          # append/write render rows like the writer, and are re-read
     'C07': [('C02', None)],                         # the maskbits cache is filled by the yanny reader
     'C09': [('C08', None)],                         # fit -> action -> intrv / bsplvn
-    'C10': [('C08', None), ('C09', None), ('C17', {'C17.REJ-MASKS', 'C17.GROW'})],      # iterfit -> fit / value / djs_reject
+    'C10': [('C08', None), ('C09', None), ('C17', {'C17.REJ-MASKS', 'C17.GROW', 'C17.INMASK-TRUTH'})],      # iterfit -> fit / value / djs_reject
     'C11': [('C10', None), ('C08', None), ('C09', None),
-            ('C17', {'C17.REJ-MASKS', 'C17.GROW', 'C17.AESTH', 'C17.MI-SITES', 'C17.MI1-STORE', 'C17.MI1-ORDER', 'C17.SMOOTH'})],
-    'C12': [('C18', {'C18.ANG-INV'})],              # RA/Dec input goes through angles_to_x
-    'C13': [('C17', {'C17.REJ-MASKS', 'C17.GROW'})],    # xy2traceset rejects through djs_reject
-    'C15': [('C17', {'C17.REJ-MASKS', 'C17.GROW'})],    # pca_solve rejects through djs_reject
+            ('C17', {'C17.REJ-MASKS', 'C17.GROW', 'C17.INMASK-TRUTH', 'C17.AESTH', 'C17.MI-SITES', 'C17.MI1-STORE', 'C17.MI1-ORDER', 'C17.SMOOTH'})],
+    'C12': [('C18', {'C18.ANG-INV', 'C18.FLOAT-OUT'})],              # RA/Dec input goes through angles_to_x
+    'C13': [('C17', {'C17.REJ-MASKS', 'C17.GROW', 'C17.INMASK-TRUTH'})],    # xy2traceset rejects through djs_reject
+    'C15': [('C17', {'C17.REJ-MASKS', 'C17.GROW', 'C17.INMASK-TRUTH'})],    # pca_solve rejects through djs_reject
     'C19': [('C17', {'C17.MI-SITES', 'C17.MI1-STORE', 'C17.MI1-ORDER'}),               # filter_thru -> djs_maskinterp
             ('C13', None)],                                                            #             -> traceset2xy
 }
